@@ -95,6 +95,19 @@ def _in(label, labels):
     return any(label == x for x in labels)
 
 
+def _with_defect_model_twin(case):
+    """A case tagged with a known finding is excused when it fails S.  Its untagged twin demands that the
+    implementation shows EXACTLY the recorded defect (the implementation model M, bugs included: outcome classes, labels,
+    values, dtypes, layout at every observed step): any other failure on the same input is reported."""
+    out = [case]
+    if case.tags.get('finding') and case.m is not None:
+        tags = {k: v for k, v in case.tags.items() if k != 'finding'}
+        tags['twin_of'] = case.tags['finding']
+        out.append(Case(case.kind + '-recorded-outcome', case.desc, m=None, s=case.m, py_fail=None, tags=tags,
+                        nontrivial=case.nontrivial, key=case.key + '|recorded-outcome'))
+    return out
+
+
 # ----------------------------------------------------------------------------- IndexGO histories
 def snap_index(idx):
     try:
@@ -334,12 +347,12 @@ def index_cases(ctx):
         return Case(kind, desc, m=m, s=s, tags=tags,
                     nontrivial=any(st['raised'] is None and st['op'][0] != 'read' for st in desc['steps']))
     for auto, labels, ops in CORPUS_INDEX:
-        yield emit('api:IndexGO-corpus', auto, labels, ops, [True] * len(ops))
+        yield from _with_defect_model_twin(emit('api:IndexGO-corpus', auto, labels, ops, [True] * len(ops)))
     for auto, labels, ops, look in index_exhaustive(ctx):
-        yield emit('api:IndexGO-exhaustive', auto, labels, ops, look)
+        yield from _with_defect_model_twin(emit('api:IndexGO-exhaustive', auto, labels, ops, look))
     for auto, labels, ops, look in index_random(ctx, ctx.n(150, 2000)):
         if ops:
-            yield emit('api:IndexGO-random', auto, labels, ops, look)
+            yield from _with_defect_model_twin(emit('api:IndexGO-random', auto, labels, ops, look))
 
 
 # ----------------------------------------------------------------------------- FrameGO histories
@@ -947,11 +960,11 @@ def frame_cases(ctx):
         return Case(kind, desc, m=m, s=s, py_fail=py_fail, tags=tags,
                     nontrivial=any(st['raised'] is None and st['op']['op'] != 'read' for st in desc['steps']))
     for init, ops in CORPUS_FRAME:
-        yield emit('api:FrameGO-corpus', init, ops, [True] * len(ops))
+        yield from _with_defect_model_twin(emit('api:FrameGO-corpus', init, ops, [True] * len(ops)))
     for init, ops, look in frame_exhaustive(ctx):
-        yield emit('api:FrameGO-exhaustive', init, ops, look)
+        yield from _with_defect_model_twin(emit('api:FrameGO-exhaustive', init, ops, look))
     for init, ops, look in frame_random(ctx, ctx.n(200, 2500)):
-        yield emit('api:FrameGO-random', init, ops, look)
+        yield from _with_defect_model_twin(emit('api:FrameGO-random', init, ops, look))
 
 
 # ----------------------------------------------------------------------------- sharing / isolation
@@ -1481,6 +1494,39 @@ def _own_sites_in_source():
     return n
 
 
+def _alias_outcome(live, problems, how):
+    """The recorded outcome of the two alias findings, or 'other'.
+    'columns': every derived container IS the source's own columns object; the only deviations are that this object is
+               shared and that growth of the frame / of that index shows in the other.
+    'copy':    every derived container is another FrameGO holding the source's _columns AND _blocks objects; the only
+               deviations are those shared objects and growth of one frame showing in the other."""
+    import static_frame as sf
+    src = live[0][1]
+    derived = [c for _, c in live[1:]]
+    if not derived or not problems:
+        return 'other'
+    if how == 'columns':
+        if not all(c is src._columns for c in derived):
+            return 'other'
+        want = 'the-frames-own-columns-object'
+    else:
+        if not all(isinstance(c, sf.FrameGO) and c is not src and c._columns is src._columns and c._blocks is src._blocks for c in derived):
+            return 'other'
+        want = 'shallow-copy-holds-the-same-columns-and-blocks'
+    out_of_step = False          # the recorded consequence of appending to the alias: the frame has a label without data
+    for p in problems:
+        ok = ('share the mutable object' in p or ' IS the grow-only container ' in p
+              or (p.startswith('growing ') and ' changed ' in p and "'unreadable'" not in p.split(' -> ')[0]))
+        if how == 'columns' and p.startswith('growing d') and ' changed source' in p:
+            out_of_step = True
+        if 'did not change it' in p:
+            ok = how == 'columns' and out_of_step and p.startswith('growing source ')
+        if not ok:
+            return 'other'
+    return want
+
+
+
 def sharing_history(src_name, make_src, dname, derive):
     """derive -> grow source -> derive again -> grow every grow-only derived -> grow source again; after every
     growth every OTHER live container must read exactly as before, and no object a growth call mutates may
@@ -1580,9 +1626,15 @@ def sharing_cases(ctx):
                     tags = {'container': src_name, 'derivation': dname}
                     base = dname.replace('auto:', '')
                     if base in ('columns-property', 'columns', 'keys') and src_name.startswith('FrameGO'):
-                        tags['finding'] = F_COLPROP
+                        tags['input_class'] = F_COLPROP
+                        tags['outcome'] = _alias_outcome(live, problems, 'columns')
+                        if tags['outcome'] == 'the-frames-own-columns-object':
+                            tags['finding'] = F_COLPROP
                     if dname == 'copy.copy' and src_name.startswith('FrameGO'):
-                        tags['finding'] = F_COPY
+                        tags['input_class'] = F_COPY
+                        tags['outcome'] = _alias_outcome(live, problems, 'copy')
+                        if tags['outcome'] == 'shallow-copy-holds-the-same-columns-and-blocks':
+                            tags['finding'] = F_COPY
                     desc = {'source': src_name, 'derivation': dname, 'steps': steps, 'problems': problems[:4]}
                     emitted += 1
                     yield Case('api:sharing-' + family, desc, py_fail='; '.join(problems[:3]) if problems else None,
@@ -1943,6 +1995,7 @@ def typed_history(cls_name, labels, ops):
     idx = getattr(sf, cls_name)(labels)
     co = lambda v: str(np.datetime64(v, unit))
     steps, problem = [], None
+    kinds = []          # kind of every deviation met: 'extend-kept-prefix-before-duplicate' is the recorded defect
     for k, op in enumerate(ops):
         before = [str(x) for x in idx.values]
         given = [op[1]] if op[0] == 'append' else list(op[1])
@@ -1953,17 +2006,22 @@ def typed_history(cls_name, labels, ops):
         except Exception as e:  # noqa
             after, npos = [_unreadable(e)], -1
         steps.append({'op': [op[0], _j(op[1])], 'raised': None if exc is None else type(exc).__name__, 'values': after, 'positions': npos})
-        if problem:
-            continue
         want = [co(v) for v in given]
         dup = any(w in before for w in want) or len(set(want)) != len(want)
         if exc is not None and after != before:
-            problem = f'step {k + 1}: {op[0]} {op[1]!r} raised {type(exc).__name__} but the index changed: {before} -> {after}'
+            first_dup = next((i for i, w in enumerate(want) if w in before or w in want[:i]), None)
+            recorded = (op[0] == 'extend' and type(exc).__name__ == 'KeyError' and first_dup is not None and first_dup > 0
+                        and after == before + want[:first_dup] and npos == len(after))
+            kinds.append('extend-kept-prefix-before-duplicate' if recorded else 'other')
+            problem = problem or f'step {k + 1}: {op[0]} {op[1]!r} raised {type(exc).__name__} but the index changed: {before} -> {after}'
         elif exc is None and dup:
-            problem = f'step {k + 1}: {op[0]} {op[1]!r} holds a duplicate label and was accepted: {after}'
+            kinds.append('other')
+            problem = problem or f'step {k + 1}: {op[0]} {op[1]!r} holds a duplicate label and was accepted: {after}'
         elif exc is None and (after != before + want or npos != len(after)):
-            problem = f'step {k + 1}: {op[0]} {op[1]!r} accepted: {after} (positions {npos}) instead of {before + want}'
-    return {'container': cls_name, 'labels': _j(labels), 'steps': steps}, problem
+            kinds.append('other')
+            problem = problem or f'step {k + 1}: {op[0]} {op[1]!r} accepted: {after} (positions {npos}) instead of {before + want}'
+    outcome = 'none' if not kinds else ('extend-kept-prefix-before-duplicate' if all(x != 'other' for x in kinds) else 'other')
+    return {'container': cls_name, 'labels': _j(labels), 'steps': steps}, problem, outcome
 
 
 def _typed_class(cls_name, labels, ops):
@@ -2009,14 +2067,18 @@ def typed_cases(ctx):
         hist.append((cls_name, [vals[0]], ops))
     for cls_name, labels, ops in hist:
         try:
-            desc, problem = typed_history(cls_name, labels, ops)
+            desc, problem, outcome = typed_history(cls_name, labels, ops)
         except Exception as e:  # noqa
             yield _escaped('api:typed-IndexGO', {'container': cls_name, 'ops': _j([list(o) for o in ops])}, e, {'container': cls_name})
             continue
         tags = {'container': cls_name}
         f = _typed_class(cls_name, labels, ops)
         if f:
-            tags['finding'] = f
+            # the finding tag is set only when the input is in the class AND the recorded outcome was observed
+            tags['input_class'] = f
+            tags['outcome'] = outcome
+            if outcome == 'extend-kept-prefix-before-duplicate':
+                tags['finding'] = f
         ctx.count('typed:' + cls_name)
         yield Case('api:typed-IndexGO', desc, py_fail=problem, tags=tags,
                    nontrivial=any(st['raised'] is None for st in desc['steps']))
